@@ -5,6 +5,8 @@ Reads, with `ast` only (nothing is imported or executed),
 * scico/numpy/_wrapped_function_lists.py : the literal tuples `unary_ops`, `binary_ops`,
   `creation_routines`, `mathematical_functions`, `reduction_functions`, `testing_functions`;
 * scico/scipy/special.py                 : the literal tuple `functions` and its wrapper;
+* scico/numpy/_blockarray.py             : `skip_props`, `skip_methods`, the class body of `BlockArray`, the conditions of
+  the `da_props` / `da_methods` comprehensions (the members of the jax array type come from jax itself);
 * scico/numpy/__init__.py                : the sequence of `_wrappers.wrap_recursively(vars(), <list>, _wrappers.<wrapper>)`
   calls (which list gets which wrapper, in which order).
 
@@ -69,6 +71,58 @@ def read_tables(repo: Path | None = None):
     return t
 
 
+def read_attr_tables(repo: Path | None = None):
+    """which attributes of the jax array type `_blockarray.py` lifts onto BlockArray.
+
+    With `ast`: `skip_props`, `skip_methods`, the names defined in the class body of `BlockArray`, the
+    conjuncts of the conditions of the `da_props` / `da_methods` list comprehensions.  From jax itself
+    (scico is NOT imported): the public members of `type(jnp.array([0]))` with the two flags the code tests."""
+    import inspect
+    from typing import Callable
+
+    repo = Path(repo) if repo else common.REPO
+    path = repo / "scico/numpy/_blockarray.py"
+    tree = ast.parse(path.read_text())
+    skips = _literal_tuples(path, {"skip_props", "skip_methods"})
+    for nm in ("skip_props", "skip_methods"):
+        if nm not in skips:
+            raise common.Infra(f"_blockarray.py: no literal tuple {nm}")
+    own = []
+    conds = {}
+    for node in tree.body:
+        if isinstance(node, ast.ClassDef) and node.name == "BlockArray":
+            for b in node.body:
+                if isinstance(b, (ast.FunctionDef, ast.AsyncFunctionDef)):
+                    own.append(b.name)
+                elif isinstance(b, ast.Assign):
+                    own += [t.id for t in b.targets if isinstance(t, ast.Name)]
+        if isinstance(node, ast.Assign) and len(node.targets) == 1 and isinstance(node.targets[0], ast.Name) and node.targets[0].id in ("da_props", "da_methods"):
+            v = node.value
+            if not (isinstance(v, ast.ListComp) and len(v.generators) == 1):
+                raise common.Infra(f"_blockarray.py: {node.targets[0].id} is not a single list comprehension")
+            cs = []
+            for c in v.generators[0].ifs:
+                cs += [ast.unparse(x) for x in c.values] if (isinstance(c, ast.BoolOp) and isinstance(c.op, ast.And)) else [ast.unparse(c)]
+            conds[node.targets[0].id] = cs
+            src = ast.unparse(v.generators[0].iter)
+            if src != "dict(inspect.getmembers(Array)).items()" or ast.unparse(v.elt) != "k":
+                conds[node.targets[0].id] = cs + [f"<over {src} yielding {ast.unparse(v.elt)}>"]
+    for nm in ("da_props", "da_methods"):
+        if nm not in conds:
+            raise common.Infra(f"_blockarray.py: no list comprehension {nm}")
+    lists = read_tables(repo)
+    own = list(dict.fromkeys(own + lists["unary_ops"] + lists["binary_ops"]))
+    import jax.numpy as jnp
+
+    Array = type(jnp.array([0]))
+    members = [(k, isinstance(v, property), isinstance(v, Callable)) for k, v in dict(inspect.getmembers(Array)).items() if k[0] != "_"]
+    own_public = [k for k in own if k[0] != "_"]
+    props = [k for k, p, c in members if p and k not in own_public and k not in skips["skip_props"]]
+    methods = [k for k, p, c in members if c and k not in own_public and k not in props and k not in skips["skip_methods"]]
+    return {"members": members, "own": own_public, "skip_props": skips["skip_props"], "skip_methods": skips["skip_methods"],
+            "prop_conds": conds["da_props"], "method_conds": conds["da_methods"], "props": props, "methods": methods}
+
+
 def _lean_str(s: str) -> str:
     return '"' + s.replace("\\", "\\\\").replace('"', '\\"') + '"'
 
@@ -83,7 +137,28 @@ def _lean_pairs(ps):
     return "[" + ", ".join(f"({_lean_str(a)}, {_lean_str(b)})" for a, b in ps) + "]"
 
 
-def render(t) -> str:
+def render_attrs(a) -> str:
+    mem = ",\n    ".join(f"⟨{_lean_str(k)}, {'true' if p else 'false'}, {'true' if c else 'false'}⟩" for k, p, c in a["members"])
+    return "\n".join([
+        "/-- lifted attributes: public members of the jax array type (from jax), names and skip lists of `_blockarray.py` (ast) -/",
+        "def attrTables : AttrTables :=",
+        f"  {{ members := [\n    {mem}]",
+        f"    ownNames := {_lean_list(a['own'])}",
+        f"    skipProps := {_lean_list(a['skip_props'])}",
+        f"    skipMethods := {_lean_list(a['skip_methods'])}",
+        f"    propConds := {_lean_list(a['prop_conds'], 2)}",
+        f"    methodConds := {_lean_list(a['method_conds'], 2)}",
+        f"    expectedProps := {_lean_list(a['props'])}",
+        f"    expectedMethods := {_lean_list(a['methods'])} }}",
+        "",
+        "/-- the comprehensions of `_blockarray.py` lift exactly the listed attributes; the promised ones are among them",
+        "    (meaning: `Scico.Block.Lists.checkAttrs_sound`) -/",
+        "theorem attrs_ok : checkAttrs attrTables = true := by decide +kernel",
+        "",
+    ])
+
+
+def render(t, attrs=None) -> str:
     camel = {
         "unary_ops": "unaryOps",
         "binary_ops": "binaryOps",
@@ -116,6 +191,7 @@ def render(t) -> str:
         "/-- the structural obligations on the current tables (meaning: `Scico.Block.Lists.check_sound`) -/",
         "theorem tables_ok : check tables = true := by decide",
         "",
+        render_attrs(attrs) if attrs is not None else "",
         "end Scico.Generated.WrappedNames",
         "",
     ]
@@ -124,7 +200,9 @@ def render(t) -> str:
 
 def generate(repo: Path | None = None):
     t = read_tables(repo)
-    txt = render(t)
+    attrs = read_attr_tables(repo)
+    t["lifted_props"], t["lifted_methods"] = attrs["props"], attrs["methods"]
+    txt = render(t, attrs)
     OUT.parent.mkdir(parents=True, exist_ok=True)
     if not OUT.exists() or OUT.read_text() != txt:
         OUT.write_text(txt)
